@@ -687,6 +687,63 @@ pub async fn run(a: &Args) -> Report {
             s.node.kill();
         }
     }
+    // the same for the datagram relay of a VMess client (modes udp and tcp_and_udp): a datagram must not travel under another cipher
+    for (mode, cipher) in [("udp", "aes-256-gcm"), ("tcp_and_udp", "aes-256-gcm"), ("udp", "2022-blake3-aes-128-gcm"), ("tcp_and_udp", "2022-blake3-chacha20-poly1305")] {
+        let v = Cfg::random(&mut rng, Proto::Vmess(3), 1);
+        let l = tokio::net::TcpListener::bind("127.0.0.1:0").await.unwrap();
+        let sport = l.local_addr().unwrap().port();
+        let cport = free_port();
+        let mut e = v.client_entry("127.0.0.1", sport);
+        e["cipher"] = json!(cipher);
+        let conf = json!({"port": cport, "mode": mode, "index": 0, "servers": [e]});
+        let t = tag();
+        let dd = dir.clone();
+        let st = tokio::task::spawn_blocking(move || start_and_observe("client", &conf, &dd, &t, Duration::from_millis(500))).await.unwrap();
+        rep.evaluations += 1;
+        rep.mon("bad_values_tried", 1);
+        let name = format!("vmess-unlisted-cipher/{cipher}/mode={mode}");
+        rep.distinct.insert(crate::report::hash_of(&("bad", &name)));
+        if let Ok(mut s) = st {
+            if has_panic(&s.log, s.exited) {
+                rep.violation(format!("C16|bad-value|{name}|panic"), "panic".to_string(), json!({"log": s.log}));
+            } else if s.exited.is_none() && s.udp.contains(&cport) {
+                // it serves local datagrams: whatever reaches the server must not be a VMess request under some other cipher
+                let keys = v.ref_cmd_keys();
+                let srv = tokio::spawn(async move {
+                    let Ok(Ok((mut c, _))) = tokio::time::timeout(Duration::from_secs(2), l.accept()).await else { return None };
+                    let mut got = Vec::new();
+                    let mut b = [0u8; 4096];
+                    let t0 = Instant::now();
+                    while t0.elapsed() < Duration::from_millis(1500) {
+                        match tokio::time::timeout(Duration::from_millis(500), c.read(&mut b)).await {
+                            Ok(Ok(n)) if n > 0 => got.extend_from_slice(&b[..n]),
+                            _ => break,
+                        }
+                        let now = std::time::SystemTime::now().duration_since(std::time::UNIX_EPOCH).unwrap().as_secs() as i64;
+                        if let Ok(o) = refimpl::vmess::open_request_header(&keys, now, &got) {
+                            return Some(o.header.security);
+                        }
+                    }
+                    None
+                });
+                if let Ok(u) = tokio::net::UdpSocket::bind("127.0.0.1:0").await {
+                    for _ in 0..2 {
+                        let mut dg = vec![0u8, 0, 0, 1, 127, 0, 0, 1, 0, 53];
+                        dg.extend_from_slice(b"what cipher carries this?");
+                        let _ = u.send_to(&dg, ("127.0.0.1", cport)).await;
+                        tokio::time::sleep(Duration::from_millis(100)).await;
+                    }
+                }
+                match srv.await {
+                    Ok(Some(sec)) => rep.violation(format!("C16|bad-value|{name}|silent-fallback:datagram-relayed-under-security-{sec}"), format!("a VMess client configured with cipher {cipher} (not offered for VMess), mode {mode}, relays datagrams under VMess security {sec} without a word"), json!({"log": s.node.log_tail(6)})),
+                    _ => rep.mon("bad_values_reported_as_errors", 1),
+                }
+            } else {
+                rep.mon("bad_values_reported_as_errors", 1);
+            }
+            s.node.kill();
+        }
+    }
     rep.sample(json!({"documented": {"ciphers": cipher_names().iter().map(|c| c.0).collect::<Vec<_>>(), "server_modes": ["tcp", "udp", "tcp_and_udp", "quic", "tcp_and_quic"], "client_modes": ["tcp", "udp", "tcp_and_udp"], "protocols": ["shadowsocks", "vmess", "trojan"]}, "observers": ["bound sockets of the process (/proc/<pid>/fd x /proc/net/{tcp,udp})", "canary through reference client / reference server configured from the same password", "exit status and log scan"]}));
     let _ = std::fs::remove_dir_all(&dir);
     let _ = Arc::new(());
